@@ -59,8 +59,26 @@ def kernel_queries(tier):
                          rec_bounds=PW(e), backend=('sat' if e >= 0 else 'cvc5'), timeout=300))
     qs.append(kq('kernel/pow/kf-neg-even', 'h_pow', {'LK': 0, 'RK': 3, 'PB': 4, 'PE': -2}, kf_only=KP, bounds={'ref_pow': 3}, rec_bounds=PW(2), backend='cvc5', timeout=300))
     for e in (-3, -2, -1, 0, 1, 2, 3):
-        qs.append(kq('kernel/pow/wide/e%d' % e, 'h_pow', {'LK': INTS, 'RK': 3, 'PB': 64, 'PE': e}, kf_excl=[KP], bounds={'ref_pow': abs(e) + 1}, rec_bounds=PW(e),
-                     backend='cvc5', timeout=300))
+        for lk in (2, 3):
+            if lk == 3 and e == -2: continue        # only non-negative bases remain there (the rest is C04-pow-neg-even-sign) and no back end decides it
+            qs.append(kq('kernel/pow/wide/%s/e%d' % (KN[lk], e), 'h_pow', {'LK': lk, 'RK': 3, 'PB': 64, 'PE': e}, kf_excl=[KP], bounds={'ref_pow': abs(e) + 1}, rec_bounds=PW(e),
+                         backend='cvc5', timeout=300))
+    # fractional base / exponent: |x| in (0,1) -> no value (documented); other non-integral reals are truncated today (finding)
+    KFr = 'C04-pow-fraction-trunc'
+    for lk, rk in ((1, 1), (1, 2), (1, 3), (2, 1), (3, 1)):
+        qs.append(kq('kernel/pow/frac/%s-%s' % (KN[lk], KN[rk]), 'h_pow_frac', {'LK': lk, 'RK': rk}, kf_excl=[KFr], rec_bounds={'PowerOf': 3}, backend='cvc5', timeout=300))
+    qs.append(kq('kernel/pow/frac/kf-trunc', 'h_pow_frac', {'LK': 1, 'RK': 2}, kf_only=KFr, rec_bounds={'PowerOf': 3}, backend='cvc5', timeout=300))
+    # comparisons / equality with a Natural >= 2^63 (compared as a signed word today)
+    qs.append(kq('kernel/lt/kf-natural', 'h_cmp', {'OPER': 8, 'LK': 0, 'RK': 0}, kf_only=KF_NAT, timeout=300))
+    qs.append(kq('kernel/eq/kf-natural', 'h_cmp', {'OPER': 3, 'LK': 0, 'RK': 0}, kf_only=KF_NAT, timeout=300))
+    NTX = 2 if tier == 'quick' else 3
+    # == / != over literals (number / text) and variables of every kind
+    for op in (3, 4):
+        for sl, nl in ((0, 'text'), (1, 'num'), (4, 'var')):
+            for sr, nr in ((0, 'text'), (1, 'num'), (4, 'var')):
+                if op == 4 and tier == 'quick' and (sl, sr) != (4, 4): continue       # != only flips the bit
+                qs.append(kq('kernel/%s/%s-%s' % (OPN[op], nl, nr), 'h_eq_mixed', {'OPER': op, 'NT': NTX, 'SKL': sl, 'SKR': sr}, kf_excl=[KF_NAT],
+                             bounds={'h_eq_mixed': NTX + 1, 'vf_buf.*': NTX + 3, 'IsEqual': NTX + 1, 'getValue': 3}, timeout=600))
     return qs
 def queries(tier):
     return kernel_queries(tier)
